@@ -15,7 +15,10 @@ Definition b58_tables_stmt : Prop :=
   forallb (fun c => nth (Z.to_nat c) B58_MAP_C (-1) =? match index_of c BITCOIN_ALPHABET 0 with Some d => d | None => -1 end)
           (map Z.of_nat (seq 0 128)) = true /\
   B58_ENC_MUL = 256 /\ B58_ENC_BASE = 58 /\ B58_DEC_BASE = 58 /\
-  B58_DEC_CARRYMASK = 0x3f00000000 /\ B58_DEC_CARRYSHIFT = 32 /\ B58_DEC_LIMBMASK = 0xffffffff.
+  B58_DEC_CARRYMASK = 0x3f00000000 /\ B58_DEC_CARRYSHIFT = 32 /\ B58_DEC_LIMBMASK = 0xffffffff /\
+  (* the pad character written/recognised for a leading zero byte is the alphabet's digit 0, and the
+     "high bit" test covers exactly the bytes beyond the 128-entry map table *)
+  B58_PAD_ENC_C = b58_char 0 /\ B58_PAD_DEC_C = b58_char 0 /\ B58_HIGHBIT_C = 128.
 
 Lemma b58_tables_are_bitcoin : b58_tables_stmt.
 Proof. vm_compute. repeat split. Qed.
@@ -23,6 +26,9 @@ Proof. vm_compute. repeat split. Qed.
 Lemma alphabet_eq : B58_ALPHABET_C = BITCOIN_ALPHABET. Proof. apply b58_tables_are_bitcoin. Qed.
 Lemma enc_mul_eq : B58_ENC_MUL = 256. Proof. apply b58_tables_are_bitcoin. Qed.
 Lemma enc_base_eq : B58_ENC_BASE = 58. Proof. apply b58_tables_are_bitcoin. Qed.
+Lemma pad_enc_eq : B58_PAD_ENC_C = 49. Proof. reflexivity. Qed.
+Lemma pad_dec_eq : B58_PAD_DEC_C = 49. Proof. reflexivity. Qed.
+Lemma highbit_eq : B58_HIGHBIT_C = 128. Proof. apply b58_tables_are_bitcoin. Qed.
 
 (* the size estimate (binsz - zcount) * NUM / DEN + 1 is enough digits for every length within the
    documented limit, and the encoded string fits the 360-byte buffers with room for the NUL *)
@@ -152,7 +158,7 @@ Qed.
 Lemma base58_encode_ok x : Forall is_byte x -> Z.of_nat (length x) <= B58_ENCODE_MAXLEN ->
   base58_encode B58_DECODE_MAXLEN x = LOk (base58_spec_encode x).
 Proof.
-  intros Hx Hlen. unfold base58_encode, base58_spec_encode. rewrite lead_zeros_eq.
+  intros Hx Hlen. unfold base58_encode, base58_spec_encode. rewrite lead_zeros_eq, pad_enc_eq.
   set (z := lead_count 0 x). set (bs := skipn z x).
   pose proof (lead_count_le 0 x) as Hz. fold z in Hz.
   assert (Hn : Z.of_nat (length bs) = Z.of_nat (length x) - Z.of_nat z) by (subst bs; rewrite skipn_length; lia).
